@@ -58,6 +58,11 @@ def check(ctx):
         for spec in ("1364-1995", "1364-2001", "1800-2005"):
             srcs.append(("sv", body + "`begin_keywords \"%s\"\nmodule z; reg r; endmodule\n" % spec))
         srcs.append(("sv", "`begin_keywords \"1364-2001\"\n" + "".join("module n%d; reg logic; endmodule\n" % i for i in range(nmod))))
+    # texts the preprocessor cannot finish: a used macro whose text does not lex on its own, directly, nested, in an included file
+    for t in ["`define OPEN \"abc\n`OPEN\nmodule m; endmodule\n", "`define CM /* never closed\nmodule m; endmodule\n`CM\n", "`define BS a \\ b\n`BS\n",
+              "`define INC `include\n`INC\n", "`define OUTER `INNER\n`define INNER \"open\nmodule m; endmodule\n`OUTER\n",
+              "`define A(x) x\n`A(\"open)\n", "module m;\n`undefined_macro\nendmodule\n", "`define R `R\n`R\n", "`include \"nofile.svh\"\n"]:
+        srcs.append(("sv", t)); srcs.append(("lib", t))
     srcs.append(("lib", "".join("library l%d \"a%d/*.v\" -incdir \"i%d\";\n" % (i, i, i) for i in range(200)) + "`begin_keywords \"1364-1995\"\nconfig c; design d; endconfig\n"))
     for k, s in list(base):
         for _ in range(1 if q else 3):
@@ -96,7 +101,12 @@ def check(ctx):
             continue
         pp, strict, inc, incj = runs[0], runs[1], runs[2], runs[3]
         if "ok" not in pp:
-            ctx.count("preprocess_error"); continue
+            ctx.count("preprocess_error")
+            # whatever the preprocessor objects to is the preprocessor's error, in both modes: never a parse error
+            for rn in (inc, incj):
+                if any(l.startswith("err Parse") for l in rn):
+                    bad = bad or (k, s, "the preprocessor rejects the text, allow_incomplete reported %s" % [l for l in rn if l.startswith("err")][0])
+            continue
         text = unhx([l for l in pp if l.startswith("text ")][0].split()[1])
         if any(l.startswith("err Parse") for l in inc):
             bad = bad or (k, s, "allow_incomplete reported %s" % [l for l in inc if l.startswith("err")][0]); continue
